@@ -116,7 +116,9 @@ fn on_alloc(size: usize) -> bool {
     MAXREQ.fetch_max(size, Relaxed);
     let bound = BOUND.load(Relaxed);
     if size > bound || live > bound {
-        let refused = size >= HARD_REQ || live >= HARD_LIVE;
+        // a single request above the bound is refused outright (serving and touching hundreds of
+        // MiB per hostile case would dominate the run); so is a live total far above it
+        let refused = size > bound || size >= HARD_REQ || live >= HARD_LIVE.min(bound.saturating_add(512 << 20));
         if IN_MONITOR.with(|f| f.get()) {
             return true;
         }
